@@ -335,6 +335,33 @@ pub fn oracle_handshake(c: &mut Case, toks: &[Tok], offered: u64, modern_only: b
     }
 }
 
+/// Device-specific and ring/transport feature bits each driver *implements* (read off the drivers: what
+/// their code acts on).  Accepting an offered feature obliges the driver to behave as that feature
+/// prescribes, so a driver may accept nothing outside this set (§2.2, §3.1.1 step 4).
+pub fn implemented_features(d: Drv) -> u64 {
+    // RING_INDIRECT_DESC (28), RING_EVENT_IDX (29), VERSION_1 (32), ACCESS_PLATFORM (33)
+    let common: u64 = (1 << 28) | (1 << 29) | (1 << 32) | (1 << 33);
+    common
+        | match d {
+            Drv::Blk => (1 << 5) | (1 << 9),      // RO, FLUSH
+            Drv::Console => (1 << 0) | (1 << 2),  // SIZE, EMERG_WRITE
+            Drv::Gpu => 1 << 1,                   // EDID
+            Drv::NetRaw | Drv::Net => (1 << 5) | (1 << 16), // MAC, STATUS
+            Drv::Input | Drv::Rng | Drv::Rtc | Drv::Socket | Drv::Sound | Drv::P9 => 0,
+        }
+}
+
+pub fn oracle_features(c: &mut Case, d: Drv, toks: &[Tok]) {
+    for t in toks {
+        if let Tok::WriteFeatures(w) = t {
+            let extra = w & !implemented_features(d);
+            if extra != 0 {
+                c.fail(format!("init: the {} driver accepted feature bits {:#x}, which it does not implement (it must not acknowledge what it will not honour)", d.name(), extra));
+            }
+        }
+    }
+}
+
 /// a construction that failed must not leave DRIVER_OK set with nothing else happening, and must
 /// not notify; (teardown ordering is C09's oracle)
 pub fn oracle_no_early_notify(c: &mut Case, toks: &[Tok]) {
@@ -795,6 +822,7 @@ pub fn one_model_case(cfg: NewCfg, id: String, with_gated: bool) -> Case {
         Ok(Ok(b)) => {
             c.nontrivial = true;
             oracle_handshake(&mut c, &toks, cfg.offered, true);
+            oracle_features(&mut c, cfg.d, &toks);
             oracle_flags(&mut c, &toks);
             let neg = negotiated_of(&toks);
             c.tag(format!("negotiated-ring-bits={}", (neg >> 28) & 3));
